@@ -2,14 +2,14 @@
 """Writes /verif/MANIFEST.json from vlib/registry.py (so the two never drift)."""
 import json, os, sys
 sys.path.insert(0, os.path.dirname(os.path.dirname(os.path.abspath(__file__))))
-from vlib.registry import PROPS, MANIFEST_TEXT, NOT_BUILT
+from vlib.registry import PROPS, NOT_BUILT
 
 ALL = ["C%02d" % i for i in range(1, 21)]
 checks = []
 for pid in ALL:
     if pid not in PROPS:
         continue
-    t = MANIFEST_TEXT[pid]
+    t = PROPS[pid]["manifest"]
     checks.append({
         "property_id": pid,
         "quick_cmd": "./check %s --tier quick" % pid,
